@@ -27,7 +27,8 @@ RULE = (
     "Hypothesis: forms with test and trial function (equal or different elements from the zoo) of 1-3 integrals over "
     "dx/ds with subdomain ids and metadata; each integrand a sum of generated bilinear, linear and argument-free terms, "
     "some with the trial function replaced by (u + g) inside the term so that the linear part is hidden under "
-    "operators; real and complex data. One operator per case (lhs, rhs, system, functional, action, adjoint, "
+    "operators, or as components of a list tensor next to pure-data components (lhs may refuse those explicitly); "
+    "real and complex data. One operator per case (lhs, rhs, system, functional, action, adjoint, "
     "energy_norm, action with a given coefficient). non-trivial = the compared value is non-zero and the form mixes at "
     "least two arities (lhs/rhs/functional) or has a bilinear part (action/adjoint/energy_norm); distinct = distinct "
     "(form, operator)."
@@ -122,9 +123,10 @@ def cases(draw, tier):
     pure_bilinear = op in ("action", "action_given", "adjoint", "energy_norm")
     ush = tuple(world["fields"]["a1"]["shape"])
     integrals = []
+    mixedlist = False
     for _ in range(draw(st.sampled_from([1, 1, 2, 3]))):
         terms = []
-        kinds = draw(st.lists(st.sampled_from(["bi", "bi", "lin", "fun", "hidden"]), min_size=1, max_size=3))
+        kinds = draw(st.lists(st.sampled_from(["bi", "bi", "lin", "fun", "hidden", "mixedlist"]), min_size=1, max_size=3))
         if pure_bilinear:
             kinds = ["bi"] * len(kinds)
         for k in kinds:
@@ -134,6 +136,22 @@ def cases(draw, tier):
                 terms.append(L.term(["a0"], draw(st.integers(1, 2))))
             elif k == "fun":
                 terms.append(G.expr((), (), 2))
+            elif k == "mixedlist":
+                # a list tensor whose components have different arities: [T(u), data, 0, ...] . w * T(v)
+                # (lhs may refuse it with its explicit ValueError, it must not return a wrong split)
+                gd = world["gdim"]
+                if gd < 2:
+                    terms.append(L.term(["a0", "a1"], 1))
+                    continue
+                comps = [draw(st.sampled_from(["u", "data", "zero"])) for _ in range(gd)]
+                comps[draw(st.integers(0, gd - 1))] = "u"
+                free_ = [q for q, c_ in enumerate(comps) if c_ != "u"]
+                comps[free_[draw(st.integers(0, len(free_) - 1))] if free_ else 0] = "data"
+                if "u" not in comps:
+                    comps[-1 if comps[0] == "data" else 0] = "u"
+                rows = [L.term(["a1"], 1) if c_ == "u" else (G.expr((), (), 1) if c_ == "data" else ["zero", []]) for c_ in comps]
+                terms.append(["mul", ["dot", ["list", rows], G.leaf_field_only((gd,), ())], L.term(["a0"], 1)])
+                mixedlist = True
             else:
                 nv = len(G.vars)
                 t = L.term(["a0", "a1"], draw(st.integers(1, 2)))
@@ -149,7 +167,7 @@ def cases(draw, tier):
         integrals.append({"itype": draw(st.sampled_from(["dx", "dx", "ds"])), "sid": draw(st.sampled_from([None, None, 1, [1, 2]])),
                           "md": draw_md(draw), "expr": e})
     return {"world": world, "vars": G.vars, "integrals": integrals, "op": op, "cplx": cplx, "same_space": same,
-            "env_seed": draw(st.integers(0, 10**6))}
+            "mixedlist": mixedlist, "env_seed": draw(st.integers(0, 10**6))}
 
 
 def strategy(tier):
@@ -367,6 +385,9 @@ def check_case(case):
     except RecursionError:
         raise
     except Exception as ex:
+        if case.get("mixedlist") and isinstance(ex, ValueError) and "list_tensors with non-zero components providing fewer arguments" in str(ex):
+            # the documented explicit refusal of list tensors with components of different arity
+            return {"nontrivial": False, "labels": ["mixed-list:refused", "op:" + ("lhs" if op == "system" else op)]}
         raise Violation(f"{op} raised {type(ex).__name__}: {str(ex)[:300]}", {"kind": "raised:" + exc_bucket(ex)})
     nonzero = False
     for rep in range(2):
@@ -437,4 +458,6 @@ def check_case(case):
             nonzero |= any(np.any(np.abs(x) > 1e-12) for x in exp.values())
     kinds = set()
     labels = ["op:" + ("lhs" if op == "system" else ("action" if op == "action_given" else op)), "complex" if cplx else "real"]
+    if case.get("mixedlist"):
+        labels.append("mixed-list:split")
     return {"nontrivial": nonzero, "labels": labels}
